@@ -224,6 +224,11 @@ def p_only_psqrt(a):
     return all(ATOMS[i].kind == "psqrt" for i in p_atoms(a))
 
 
+def _reducible_sqrt(i):
+    at = ATOMS[i]
+    return at.kind == "psqrt" or (at.kind == "gsqrt" and at.radicand is not None and at.radicand[1] == {ONE: Fraction(1)})
+
+
 def p_conj(a, atom):
     """Flip the sign of every term containing sqrt atom `atom` to an odd power."""
     r = {}
@@ -284,17 +289,20 @@ def rf_normalize(P, Q):
     if p_is_const(Q):
         c = p_const_value(Q)
         return p_scale(P, 1 / c), P_ONE
-    if p_only_psqrt(Q):
-        # rationalise an algebraic-constant denominator
-        for _ in range(12):
-            ats = [i for i in p_atoms(Q)]
-            if not ats:
-                break
-            cj = p_conj(Q, ats[0])
-            P = p_mul(P, cj)
-            Q = p_mul(Q, cj)
-        if p_is_const(Q):
-            return p_scale(P, 1 / p_const_value(Q)), P_ONE
+    # rationalise the denominator with respect to every square-root atom that can be squared away
+    for _ in range(24):
+        ats = [i for i in p_atoms(Q) if _reducible_sqrt(i)]
+        if not ats:
+            break
+        if len(P) * len(Q) > 4 * SIZE_LIMIT:
+            break
+        cj = p_conj(Q, ats[0])
+        P = p_mul(P, cj)
+        Q = p_mul(Q, cj)
+    if not P:
+        return {}, P_ONE
+    if p_is_const(Q):
+        return p_scale(P, 1 / p_const_value(Q)), P_ONE
     if P == Q:
         return P_ONE, P_ONE
     mono = p_monomial_content([P, Q])
@@ -310,6 +318,50 @@ def rf_normalize(P, Q):
         if cp is not None and p_scale(Q, cp) == P:
             return p_const(cp), P_ONE
     return P, Q
+
+
+CANCEL_MIN = 12          # try a polynomial gcd when P and Q together have at least this many terms
+_CANCEL_STATS = dict(tried=0, reduced=0)
+
+
+def rf_cancel(rf):
+    """Divide numerator and denominator by their polynomial gcd (sympy, over Q)."""
+    Pn, Q = rf
+    if Q == P_ONE or not Pn or len(Q) < 2:
+        return rf
+    import sympy
+    ids = sorted(p_atoms(Pn) | p_atoms(Q))
+    if not ids:
+        return rf
+    gens = [sympy.Symbol("a%d" % i) for i in ids]
+    pos = {i: k for k, i in enumerate(ids)}
+
+    def to_sp(p):
+        d = {}
+        for m, c in p.items():
+            e = [0] * len(ids)
+            for (i, k) in m:
+                e[pos[i]] = k
+            d[tuple(e)] = sympy.Rational(c.numerator, c.denominator)
+        return sympy.Poly.from_dict(d, gens=gens, domain="QQ")
+
+    def from_sp(q):
+        out = {}
+        for e, c in q.as_dict().items():
+            m = tuple((ids[k], int(ex)) for k, ex in enumerate(e) if ex)
+            out[m] = Fraction(int(c.p), int(c.q))
+        return out
+    _CANCEL_STATS["tried"] += 1
+    try:
+        a, b = to_sp(Pn), to_sp(Q)
+        g = a.gcd(b)
+        if g.is_ground:
+            return rf
+        a2, b2 = a.quo(g), b.quo(g)
+    except Exception:
+        return rf
+    _CANCEL_STATS["reduced"] += 1
+    return rf_normalize(from_sp(a2), from_sp(b2))
 
 
 def rf_add(a, b):
